@@ -308,6 +308,7 @@ func TestCheck(t *testing.T) {
 			"memory-model effects are left to the separate free-running -race pass (c20 race leg)",
 		},
 		Scenarios: scenarios,
+		Post:      sched.RacePost("TestC20"),
 		Budget:    map[string]time.Duration{"quick": 4 * time.Minute, "thorough": 40 * time.Minute},
 	})
 }
